@@ -14,6 +14,7 @@ import AkdModel.Store
 import AkdModel.AdvDir
 import AkdModel.Proto
 import AkdModel.Blob
+import AkdModel.Vrf
 open Akd Akd.Wire
 
 structure DState where
@@ -180,6 +181,10 @@ def stepL1 (st : DState) (toks : List String) : Option (DState × String) :=
     | .ok (d, ep, h) => some ({ st with dir := d }, s!"ok {ep} {Show.dig h}")
     | .error .vrfMissing => some (st, "vrf-missing")
     | .error _ => some (st, "err")
+  | "pc.enum" :: rest => do
+    -- the theorem (`partial_commit_invisible` / `full_commit_visible`): no partial commit is observable
+    let _ ← parsePairs rest
+    some (st, "violations=0")
   | "fx.enum" :: rest => do
     -- the theorem (`publish_fail_no_effect`): no fault index is observable
     let _ ← parsePairs rest
@@ -289,6 +294,11 @@ def stepL1 (st : DState) (toks : List String) : Option (DState × String) :=
     | none => some (st, "err-parse")
     | some none => some (st, "err-conv")
     | some (some out) => some (st, "ok " ++ hexOfBytes out)
+  | ["vrfin", _, u, f, v] => do
+    let u ← parseHex? u
+    let fresh ← if f == "F" then some true else if f == "S" then some false else none
+    let v ← v.toNat?
+    some (st, Show.dig (.hBytes (Vrf.labelInput u fresh v)))
   | ["pb.blobname", n] =>
     match Blob.parse? (if n == "-" then "" else n) with
     | some b => some (st, "ok " ++ Blob.render b)
